@@ -13,7 +13,8 @@ import enc
 import framework
 
 PID = 'C10'
-SOURCES = ['SoupVerif/Properties/C10.lean', 'SoupVerif/Lemmas/Escape.lean', 'SoupVerif/Model/Escape.lean']
+SOURCES = ['SoupVerif/Properties/C10.lean', 'SoupVerif/Lemmas/Escape.lean', 'SoupVerif/Model/Escape.lean',
+           'SoupVerif/Properties/C10Gen.lean', 'SoupVerif/Generated/PyStrings.lean', 'SoupVerif/Model/PyStrings.lean']
 RULE = ('strings: every single code point of the tier\'s range in four positions (alone, after "-", after "a", before "1"), all '
         'pairs/triples over a critical alphabet (NUL, controls, DEL, C1, space, digits, hex letters, "-", "_", backslash, '
         'quotes, brackets, CR/LF/FF, surrogates, astral), random strings; each checked: (1) the property on PY itself: '
